@@ -70,7 +70,7 @@ func (e *varstoreEngine) Gen(seed uint64, tier string, run int) *Trace {
 	// swarm: which variables exist in this run
 	nsec := r.Range(1, 3)
 	for _, i := range r.Perm(len(vsSecure))[:nsec] {
-		c.Vars = append(c.Vars, VarSpec{Sym: vsSecure[i]})
+		c.Vars = append(c.Vars, VarSpec{Sym: vsSecure[i], Rebuilt: r.Chance(1, 4)})
 	}
 	if r.Chance(2, 3) {
 		c.Vars = append(c.Vars, VarSpec{Sym: Pick(r, []string{"BootOrder", "BootNext", "LoaderEntrySelected", "SetupMode"})})
